@@ -68,6 +68,27 @@ def main():
             z = np.zeros(n); z[rnd.randint(0, n - 1)] += 1
             check("item-assign", z.sum() == 1)
         check("mask-select", list(a[a > 0]) == [x for x in a if x > 0] and (len(a[a > 0]) == n) == all(x > 0 for x in a))
+        # 2-D algebra used by the tax scales
+        nb = rnd.randint(1, 4)
+        t = np.array(sorted(rnd.sample(range(0, 20), nb)), dtype=float)
+        rates = np.array([rnd.randint(0, 5) / 10 for _ in range(nb)])
+        if n:
+            base1 = np.tile(a, (nb, 1)).T
+            check("tile-T", base1.shape == (n, nb) and all(base1[i, k] == a[i] for i in range(n) for k in range(nb)))
+            fac = np.ones(n) * 2.0
+            th1 = np.outer(fac, np.array([*t, np.inf]))
+            check("outer-inf", th1.shape == (n, nb + 1) and all(th1[i, k] == 2.0 * t[k] for i in range(n) for k in range(nb)) and all(np.isinf(th1[i, nb]) for i in range(n)))
+            aa = np.maximum(np.minimum(base1, th1[:, 1:]) - th1[:, :-1], 0)
+            check("min-max-slices", all(aa[i, k] == max(min(a[i], th1[i, k + 1]) - th1[i, k], 0) for i in range(n) for k in range(nb)))
+            d = np.dot(rates, aa.T)
+            check("dot-vM", all(abs(d[i] - sum(rates[k] * aa[i, k] for k in range(nb))) < 1e-9 for i in range(n)))
+            check("dot-Mv", all(abs(np.dot(aa, rates)[i] - sum(aa[i, k] * rates[k] for k in range(nb))) < 1e-9 for i in range(n)))
+            check("rowsum", list((base1 - th1[:, :-1] >= 0).sum(axis=1)) == [sum(1 for k in range(nb) if a[i] - th1[i, k] >= 0) for i in range(n)])
+            check("hstack", list(np.hstack((t, np.inf)))[:-1] == list(t) and np.isinf(np.hstack((t, np.inf))[-1]))
+            check("eps-small", np.finfo(np.float64).eps < 1e-15)
+            g = np.array([-np.inf, *t, np.inf])
+            dg = np.digitize(a, g)
+            check("digitize", all(1 <= dg[i] <= nb + 1 and g[dg[i] - 1] <= a[i] < g[dg[i]] for i in range(n)))
         ints = np.array([rnd.randint(-300, 600) for _ in range(n)])
         check("astype-uint8-wraps", all(int(ints.astype(np.uint8)[i]) == int(ints[i]) % 256 for i in range(n)))
     print(json.dumps({"name": "numpy array algebra axioms (pyvc/nparr.py) vs numpy " + np.__version__, "ok": not bad,
